@@ -1,2 +1,2 @@
 (* Eng/Proofs.v — C20: all proofs of the group (re-export) *)
-From ZV Require Export Eng.ProofsOrder Eng.ProofsMap Eng.ProofsBatch Eng.ProofsIter Eng.ProofsRadix Eng.ProofsGen Eng.ProofsScript Eng.ProofsIndexKey.
+From ZV Require Export Eng.ProofsOrder Eng.ProofsMap Eng.ProofsBatch Eng.ProofsIter Eng.ProofsRadix Eng.ProofsGen Eng.ProofsConc Eng.ProofsScript Eng.ProofsIndexKey.
